@@ -404,6 +404,9 @@ class Repo:
         files = sorted(glob.glob(os.path.join(pkgdir, "**", "*.py"), recursive=True))
         if not files:
             raise AnchorError(PKG, "no python files found")
+        from . import normalize
+
+        parsed = []
         for path in files:
             rel = os.path.relpath(path, self.root)
             modname = rel[:-3].replace(os.sep, ".")
@@ -418,7 +421,9 @@ class Repo:
             except SyntaxError as e:
                 raise AnchorError(modname, f"syntax error: {e}")
             tree = _DropLocalAnnotations().visit(tree)
-            from . import normalize
+            parsed.append((path, rel, modname, is_pkg, src, tree))
+        normalize.set_foreign({modname: tree for _p, _r, modname, _i, _s, tree in parsed})
+        for path, rel, modname, is_pkg, src, tree in parsed:
 
             # consistent renamings of locals are undone first (so that reference locals are not mistaken for new
             # aliases), then again at indexing time for what normalisation leaves
